@@ -127,6 +127,7 @@ func (s *Sim) Deliver(bz []byte) (appdrv.TxOut, *Rec) {
 	pre := ""
 	if s.Obs != nil {
 		pre = s.N.Dump()
+		s.Obs.OnPreDeliver(s, bz)
 	}
 	tr := s.N.TraceTx(func() { o = s.N.DeliverTx(bz) })
 	if s.Obs != nil && o.Panic == "" {
@@ -147,7 +148,6 @@ func (s *Sim) Deliver(bz []byte) (appdrv.TxOut, *Rec) {
 		created := "-"
 		if o.Code == 0 && rtypes.IsZeroAddress(tx.To) && len(o.Data) == 20 {
 			created = appdrv.Hex(o.Data)
-			s.Contracts = append(s.Contracts, append([]byte(nil), o.Data...))
 		}
 		j := func(l []string) string {
 			if len(l) == 0 {
